@@ -208,8 +208,8 @@ PROPS = {
     ),
     'C11': dict(
         title='postponed annotations', proj='proj_uann', oracle='c11',
-        quick=[S_('meta_post', count=30000), S_('meta_rand', count=10000), S_('annot', count=4000)],
-        thorough=[S_('meta_post', count=300000), S_('meta_rand', count=100000), S_('annot', count=60000)],
+        quick=[S_('meta_post', count=30000), S_('meta_rand', count=10000), S_('annot', count=4000), S_('probes_c11', nc=1)],
+        thorough=[S_('meta_post', count=300000), S_('meta_rand', count=100000), S_('annot', count=60000), S_('probes_c11', nc=1)],
         runtime_part='eval() of postponed annotations in real function globals (stream `annot` compiles real twins with and without the future flag, shared and per-function globals)',
         level_text='The algebra carries the (annotation, upgraded annotation) pair of a parameter around without looking inside: that every pair of a result is literally the pair of an input parameter '
                    '(so a postponed annotation is never re-associated with another function\'s globals) is a theorem for merge/embed/mask/forwards/partial/modifiers; twin invariance is refuted at full '
